@@ -134,6 +134,55 @@ Example C08_zero_dynamics_values :
 Proof. exact zero_dynamics. Qed.
 Print Assumptions C08_zero_dynamics_values.
 
+(** (5) the returned transition matrix is invertible for every step, with explicit inverse E22^T
+    (the transposed lower-right block of the same exponential); Phi(0) = 1 and Phi(-dt) = Phi(dt)^-1.
+    Hypotheses: the laws of the exact exponential only. *)
+Theorem C08_transition_invertible :
+  forall (F : fieldType) (n : nat) (expm : 'M[F]_(n + n) -> 'M[F]_(n + n)) (A Q : 'M[F]_n),
+  vl_exp_laws (fun t : F => expm (t *: vl_mx A Q)) ->
+  forall dt : F,
+  [/\ cpm_ret0 expm A Q dt \in unitmx,
+      invmx (cpm_ret0 expm A Q dt) = (drsubmx (expm (dt *: vl_mx A Q)))^T,
+      cpm_ret0 expm A Q 0 = 1%:M
+    & cpm_ret0 expm A Q (- dt) = invmx (cpm_ret0 expm A Q dt)].
+Proof. exact transition_invertible. Qed.
+Print Assumptions C08_transition_invertible.
+
+(** ... and coefficient by coefficient for the formal series: exp(F s) exp(-F s) = 1 on both sides,
+    i.e. E11(s) E22(s)^T = E22(s)^T E11(s) = 1 *)
+Theorem C08_formal_transition_invertible :
+  forall (F : numFieldType) (n : nat) (A : 'M[F]_n) (d : nat),
+  cauchy (vl_E11 A) (fun k => (vl_E22 A k)^T) d = (if d is 0 then 1%:M else 0) /\
+  cauchy (fun k => (vl_E22 A k)^T) (vl_E11 A) d = (if d is 0 then 1%:M else 0).
+Proof. exact formal_transition_invertible. Qed.
+Print Assumptions C08_formal_transition_invertible.
+
+(** the series of Qd starts  Qd(s) = s Q + O(s^2):  Qd(dt) / dt -> Q *)
+Theorem C08_noise_first_order :
+  forall (F : numFieldType) (n : nat) (A Q : 'M[F]_n),
+  vl_Qd_coeff A Q 0 = 0 /\ vl_Qd_coeff A Q 1 = Q.
+Proof. exact noise_first_order. Qed.
+Print Assumptions C08_noise_first_order.
+
+(** PARTIAL (toward "Qd is positive semidefinite / a Gram matrix").  Under the laws of the exact
+    exponential the accumulated noise is monotone: Qd(s+t) - Phi(s) Qd(t) Phi(s)^T = Qd(s), and positive
+    semidefiniteness is inherited by composed steps.  So Qd(dt) is PSD as soon as Qd is PSD on an
+    arbitrarily short initial interval (0, h]: Qd(dt) = sum over k sub-steps dt/k of congruences of
+    Qd(dt/k).  STILL MISSING (analysis, not formalised): that Qd(h) is PSD for small h -- with
+    Qd(h) = h Q + O(h^2) ([C08_noise_first_order]) this needs the remainder of the convergent series to
+    be dominated, or directly that the limit Qd(h) = int_0^h exp(F u) Q exp(F^T u) du is a limit of
+    Riemann sums of the PSD matrices exp(F u) L L^T exp(F^T u) (Q = L L^T), i.e. a Gram matrix. *)
+Theorem C08_noise_gram_partial :
+  forall (F : realFieldType) (n : nat) (expm : 'M[F]_(n + n) -> 'M[F]_(n + n)) (A Q : 'M[F]_n),
+  vl_exp_laws (fun t : F => expm (t *: vl_mx A Q)) ->
+  (forall s t, cpm_ret1 expm A Q (s + t)
+               - cpm_ret0 expm A Q s *m cpm_ret1 expm A Q t *m (cpm_ret0 expm A Q s)^T
+               = cpm_ret1 expm A Q s) /\
+  (forall s t, psd (cpm_ret1 expm A Q s) -> psd (cpm_ret1 expm A Q t) ->
+               psd (cpm_ret1 expm A Q (s + t))).
+Proof. exact noise_gram_partial. Qed.
+Print Assumptions C08_noise_gram_partial.
+
 (** PARTIAL.  Positive semidefiniteness of the returned noise matrix is proved only for the
     exact zero-dynamics instance.  NOT PROVED (no analysis is formalised):
       - for every F, every PSD Q and every dt >= 0 the limit of the series
